@@ -237,16 +237,8 @@ def structural_state(repo):
                 'label': 'the inference memo tables are created per InferenceState (not shared between Scripts)',
                 'detail': 'missing: %r' % miss})
     # signature cache key: None for path-less buffers, otherwise contains the re.Match object itself
-    t3 = tree('jedi/api/helpers.py')
-    cs = find_function(t3, 'cache_signatures') if t3 else None
-    s3 = ' '.join(ast.unparse(cs).split()) if cs else ''
-    ok3 = cs is not None and 'before_bracket = re.match(' in s3 and ', whole, re.DOTALL)' in s3 \
-        and 'if module_path is None: yield None' in s3 \
-        and 'yield (module_path, before_bracket, bracket_leaf.start_pos)' in s3
-    out.append({'id': 'signature-key', 'kind': 'post', 'ok': ok3 if cs else None,
-                'label': 'the signature cache key is None for path-less buffers and otherwise contains the re.Match '
-                         'object (compared by identity): a key of one call never equals the key of another, so no '
-                         'stale signature can be served'})
+    from contracts.common import structural_signature_key
+    out += structural_signature_key(repo)
     # both users of the cached parent scope call it with the default include_flows
     users = []
     for rel, path in inv.py_files(repo):
